@@ -111,6 +111,154 @@ SPECS.append(FucSpec(
 ))
 
 
+# ----------------------------------------------------------------------------- parsemsg: exact, per call, for every input
+# (until round 5 parsemsg was covered by the bounded round-trip enumeration only.)  The contract pins the result to a spec function of
+# the decoded text T, for EVERY byte string: an optional ":prefix " up to the first space; then, if " :" occurs, everything after its
+# first occurrence is the trailing argument - verbatim, nothing stripped - and the part before it is cut into words; otherwise the
+# whole rest is cut into words; the first word is the command.  str.split() is the uninterpreted word list ws_words (trusted facts).
+# The round trip parsemsg(bytes(m)) == m over arbitrarily long argument lists still needs an induction over ' '.join and stays with
+# the bounded stand-in; what is proved here is that parsemsg adds or drops nothing on its own.
+class ListIter(VModel):
+    def __init__(self, lst):
+        self.lst = lst
+
+    def getattr(self, I, name):
+        raise Unsupported('iterator.' + name)
+
+
+def pm_setup(I):
+    s = sym(I, 's', Bytes)
+    return {'s': s}
+
+
+def s_iter(I, recv, args, kw):
+    (v,) = args
+    v = lib.unopt(I, v)
+    if isinstance(v, VCList):
+        v = core.clist_to_sym(v, Str)
+    if not isinstance(v, VList):
+        raise Unsupported('iter(%r)' % (v,))
+    return ListIter(v)
+
+
+def s_next(I, recv, args, kw):
+    it = args[0]
+    if not isinstance(it, ListIter):
+        raise Unsupported('next(%r)' % (it,))
+    l = it.lst
+    if I.branch(l.lo < l.hi, 'next_has'):
+        x = l.at(l.lo)
+        it.lst = VList(l.ek, l.arrs, l.lo + 1, l.hi)
+        return x
+    if len(args) > 1:
+        return args[1]
+    lib.raise_(I, 'StopIteration')
+
+
+def s_list(I, recv, args, kw):
+    if args and isinstance(args[0], ListIter):
+        l = args[0].lst
+        args[0].lst = VList(l.ek, l.arrs, l.hi, l.hi)
+        return l
+    from pyvc.interp import BUILTINS
+    return BUILTINS['list'](I, args, kw)
+
+
+def pm_post(I, outcome, ctx):
+    kind, v = outcome
+    s = ctx['args']['s']
+    T = core.fn('py_decode_replace', S(), S())(s.t)
+    colon = z3.PrefixOf(z3.StringVal(':'), T)
+    after = z3.SubString(T, 1, z3.Length(T) - 1)
+    sp = z3.IndexOf(after, SP, 0)
+    if kind == 'raise':
+        cover(I, 'raise')
+        I.oblige('raises_only_for_a_prefix_without_anything_after_it', z3.And(z3.BoolVal(v.cls == 'ValueError'), colon, sp < 0),
+                 detail='escaping %s' % v.cls)
+        return
+    cover(I, 'return')
+    if not (isinstance(v, VTuple) and len(v.items) == 3):
+        I.oblige('returns_prefix_command_args', z3.BoolVal(False))
+        return
+    pre_, cmd, args = v.items
+    praw = z3.If(colon, z3.SubString(after, 0, sp), z3.StringVal(''))
+    rest = z3.If(colon, z3.SubString(after, sp + 1, z3.Length(after) - sp - 1), T)
+    j = z3.IndexOf(rest, z3.StringVal(' :'), 0)
+    head = z3.If(j >= 0, z3.SubString(rest, 0, j), rest)
+    trailing = z3.SubString(rest, j + 2, z3.Length(rest) - j - 2)
+    warr, wn = lib.ws_words(head)
+    total = wn + z3.If(j >= 0, 1, 0)          # words of the head, plus the trailing argument
+    I.oblige('prefix_is_the_text_between_the_colon_and_the_first_space', pre_.t == core.fn('parseprefix', S(), S())(praw)
+             if isinstance(pre_, VStr) else z3.BoolVal(False))
+    # command: the first word (or the trailing argument when there is no word at all), None when there is nothing
+    cmd = lib.unopt(I, cmd) if not isinstance(cmd, (VNone, VStr)) else cmd
+    if isinstance(cmd, VNone):
+        cover(I, 'no_command')
+        I.oblige('command_is_none_only_for_an_empty_message', total == 0)
+    elif isinstance(cmd, VStr):
+        cover(I, 'command')
+        first = z3.If(wn > 0, z3.Select(warr, 0), trailing)
+        I.oblige('command_is_the_first_word', z3.And(total > 0, cmd.t == first))
+    else:
+        I.oblige('command_is_the_first_word', z3.BoolVal(False), detail='command is %r' % (cmd,))
+    args = lib.unopt(I, args)
+    if isinstance(args, VCList):
+        args = core.clist_to_sym(args, Str)
+    if not isinstance(args, VList):
+        I.oblige('arguments_are_the_remaining_words', z3.BoolVal(False), detail='args is %r' % (args,))
+        return
+    n = args.hi - args.lo
+    I.oblige('argument_count_is_the_number_of_remaining_words', n == z3.If(total > 0, total - 1, 0))
+    k = core.fresh('k', z3.IntSort())
+    I.assume(z3.And(k >= 0, k < n))
+    got = z3.Select(args.arrs[0], args.lo + k)
+    want = z3.If(k + 1 < wn, z3.Select(warr, k + 1), trailing)
+    I.oblige('arguments_are_the_remaining_words_then_the_trailing_text_verbatim', got == want,
+             detail='argument k is word k+1 of the part before " :"; the last one, when " :" occurs, is everything after it - nothing '
+                    'stripped, nothing split')
+
+
+PM_REPLAY = '''
+import sys
+from circuits.protocols.irc.utils import parsemsg
+bad = []
+def spec(t):
+    prefix = ''
+    if t[:1] == ':':
+        if ' ' not in t[1:]:
+            return None
+        prefix, t = t[1:].split(' ', 1)
+    if ' :' in t:
+        head, trailing = t.split(' :', 1)
+        words = head.split() + [trailing]
+    else:
+        words = t.split()
+    return prefix, (words[0] if words else None), words[1:]
+for wire in (b'PRIVMSG #c :hello world ', b'PRIVMSG #c :hello  ', b':n!u@h PRIVMSG #c : x ', b'PING :a\\r', b' PRIVMSG #c :x', b'PRIVMSG  #c  :x y',
+             b':srv 001 nick :Welcome ', b'QUIT', b'', b'JOIN #a\\t', b'PRIVMSG #c ::)', b'PRIVMSG #c :a :b '):
+    want = spec(wire.decode('utf-8', 'replace'))
+    try:
+        p, c, a = parsemsg(wire)
+    except ValueError:
+        if want is not None: bad.append('%r: ValueError' % wire)
+        continue
+    if want is None or (c, list(a)) != (want[1], want[2]):
+        bad.append('%r parsed as command %r args %r, the wire text says %r' % (wire, c, a, want and want[1:]))
+for b in bad: print(b)
+sys.exit(1 if bad else 0)
+'''
+
+SPECS.append(FucSpec(
+    'C18', 'circuits/protocols/irc/utils.py', 'parsemsg', pm_setup, pm_post, fields={},
+    calls={'parseprefix': lambda I, r, a, k: VStr(core.fn('parseprefix', S(), S())(a[0].t)),   # uninterpreted pure function of the raw prefix text
+           'iter': s_iter, 'next': s_next, 'list': s_list, 'str': lambda I, r, a, k: lib.to_str(I, a[0])},
+    exc_parents={'ValueError': 'Exception', 'StopIteration': 'Exception'}, cover=['return', 'raise', 'command', 'no_command'],
+    replay=lambda model, ob: PM_REPLAY,
+    clause='parsemsg(s), for every byte string: the raw prefix is the text between a leading ":" and the first space; the command is '
+           'the first word; the arguments are the remaining words of the part before the first " :" followed by everything after it, '
+           'verbatim (ValueError only for a prefix with nothing after it)'))
+
+
 # ----------------------------------------------------------------------------- Message.__init__: what _check_args gets to see
 # _check_args (and with it the one-line guarantee of __str__) inspects the arguments that are TEXT (`isinstance(arg, str)`); the
 # guarantee therefore needs the constructor to store text only: bytes arguments are decoded HERE, before the check, never later.
